@@ -62,7 +62,8 @@ type Exec struct {
 	gs              []*G
 	cur             *G
 	aborted         bool
-	spawningHarness bool // the goroutine being created is a harness thread (vf.Go)
+	objIDs          map[interface{}]uint64 // reflect.Value.Pointer identities
+	spawningHarness bool                   // the goroutine being created is a harness thread (vf.Go)
 
 	rx map[*Value]*rxProg // compiled regexps by *regexp.Regexp pointer
 
